@@ -5,7 +5,7 @@
     /repo/bmtree/index.go with their int32/uint64 wraps (Model/BmtreeIndexToPath.v,
     Model/BmtreeIndex.v); [Some _] = the Go code does not panic. *)
 From Coq Require Import ZArith List Bool Lia.
-From Low Require Import Lib.Bits Lib.BitSeq Lib.Lex Lib.Bytes Spec.Bmtree Spec.IndexToPathSpec
+From Low Require Import Lib.MachInt Lib.Bits Lib.BitSeq Lib.Lex Lib.Bytes Spec.Bmtree Spec.IndexToPathSpec
   Model.BmtreePath Model.BmtreeIndex Model.BmtreeIndexToPath Proofs.IndexToPathProofs.
 Import ListNotations.
 Open Scope Z_scope.
@@ -112,21 +112,23 @@ Proof. exact enum_rank_full_rank. Qed.
 Print Assumptions C05_enum_rank.
 
 (** non-vacuity: height 30 (int32 range), an index that takes the shortcut
-    (index - 30 and index share 26 leading bits), the last index, and a node
+    (index - 30 and index agree above bit 7: 23 levels are copied), the last index, and a node
     through the inverse direction; height 6 in the enumerated pre-order *)
 Example C05_nonvacuous :
   (30 <= 30)%nat /\ 0 <= 1234567 < 2 ^ (Z.of_nat 30 + 1) - 1 /\
-  IndexToPath 30 1234567 = Some 0x96b3e3fffffff /\
-  PathToIndex (2 ^ 31 - 1) 0x96b3e3fffffff = Some 1234567 /\
+  IndexToPath 30 1234567 = Some 0x96b3a3fffffff /\
+  PathToIndex (2 ^ 31 - 1) 0x96b3a3fffffff = Some 1234567 /\
   IndexToPath 30 (2 ^ 31 - 2) = Some (enc 30 (repeat true 30)) /\
-  PathToIndex (2 ^ 31 - 1) (enc 30 [true; false; true]) = Some 1073741826 /\
-  IndexToPath 30 1073741826 = Some (enc 30 [true; false; true]) /\
+  PathToIndex (2 ^ 31 - 1) (enc 30 [true; false; true]) = Some 1342177281 /\
+  IndexToPath 30 1342177281 = Some (enc 30 [true; false; true]) /\
   IndexToPath 6 100 = Some (enc 6 (nth 100 (all_nodes 6) [])) /\
   pre_rank (fullT 6) 6 (nth 100 (all_nodes 6) []) = 100.
 Proof. repeat apply conj; try (vm_compute; reflexivity); lia. Qed.
 
 Example C05_shortcut_nonvacuous :
-  (* the shortcut fixes 25 levels of the height-30 tree for this index and leaves a tree of height 5 *)
-  shortcut 30 1234567 (maskAt 30) = (p2At 30 5 (val_msb (rev (bits 25 (1234567 / 2 ^ 6)))), 16, maskAt 5) /\
-  node_at 30 1234567 = rev (bits 25 (1234567 / 2 ^ 6)) ++ node_at 5 16.
-Proof. split; vm_compute; reflexivity. Qed.
+  (* the shortcut fixes 23 levels of the height-30 tree for this index and leaves a tree of height 7 *)
+  shortcut 30 1234567 (maskAt 30) = (p2At 30 7 (val_msb (rev (bits 23 (1234567 / 2 ^ 8)))), 119, maskAt 7) /\
+  node_at 30 1234567 = rev (bits 23 (1234567 / 2 ^ 8)) ++ node_at 7 119 /\
+  (* the table row of height 3, index 11 is the node 101 *)
+  idxToPath_at (Z.land (maskAt 3) 15) 11 = Some (enc 3 [true; false; true]).
+Proof. repeat apply conj; vm_compute; reflexivity. Qed.
